@@ -196,7 +196,7 @@ def tlc(module, cfg=None, workers=None, env=None, timeout=1200, simulate=None, d
     meta = os.path.join(BUILD, "tlc", f"{tag}.{os.getpid()}.{int(time.time() * 1000) % 100000}")
     os.makedirs(meta, exist_ok=True)
     workers = workers or min(NCPU, 16)
-    java = ["java", f"-Xmx{heap}", "-XX:+UseParallelGC", *extra_java, "-cp", TLA_JAR + ":/opt/veriftools/tla/CommunityModules-deps.jar"]
+    java = ["java", f"-Xmx{heap}", "-XX:+UseParallelGC", *(extra_java or ["-Xss64m"]), "-cp", TLA_JAR + ":/opt/veriftools/tla/CommunityModules-deps.jar"]
     if dfs:
         java.insert(1, "-Dtlc2.tool.queue.IStateQueue=StateDeque")
     cmd = ["timeout", str(timeout)] + java + ["tlc2.TLC", "-workers", str(workers), "-metadir", meta, "-config", cfg + ".cfg", "-noGenerateSpecTE"]
